@@ -22,6 +22,7 @@ ck.assumptions = [
     'crc32fast::hash is an uninterpreted function per length (collision behaviour unconstrained)',
     'bitcode: serialize yields fresh symbolic bytes of the stated length; deserialize returns the value on exactly those bytes and {Err, arbitrary value} on anything else',
     'disk-space pre-check (statvfs) returns Ok; rotation not triggered (default 1 GiB limit)',
+    'P1: persist_log_entry / RaftWal::append called from the node are stubs that record their argument and may fail; the byte-level log is covered by W1-W3',
     'outside: log rotation, snapshot-triggered truncation, RaftNode::with_wal wiring (node-level chains W5/W6)',
 ]
 
@@ -67,6 +68,89 @@ for n in range(1, 4):
             cs.append(votes[-1][0] == 0)
         ck.require(ex, 'W4_recovered_term_vote', r.pc, None, z3.And(cs), wit, lambda m, w: 'recovery-classification')
 
+# ------------------------------------------------------------------ P: what the follower hands to the WAL mirrors its in-memory log
+# handle_append_entries from MIR with a WAL present (RaftWal::append / persist_log_entry record what they are given),
+# log_base_index symbolic (compaction has happened): replaying the emitted LogEntryFull / LogTruncate records over the
+# pre-log must give exactly the post in-memory log, so that a restart from the WAL holds every acknowledged entry.
+T_TIER = T
+exec(open(os.path.join(os.path.dirname(os.path.abspath(__file__)), 'raftcommon.py')).read())
+ck.declare('P1_wal_mirrors_log', 'in-memory log 0..2 entries above a symbolic log_base_index < 2^32, 0..2 consecutive entries after prev = base + p',
+           'when every WAL write succeeded: applying the emitted records (LogTruncate{from}: drop >= from; LogEntryFull{i,t}: put) to the pre-log yields the post in-memory log')
+ck.bounds['WAL mirror'] = 'follower log 0..2 entries, entries per message 0..2, log_base_index any value below 2^32'
+TRUNC = P.variant_index('RaftWalEntry', 'LogTruncate')
+mirrored = 0
+for n in range(0, 3):
+    for k in range(0, 3):
+        for p_off in range(0, n + 1):
+            st = ex.new_state()
+            B = z3.BitVec('base', 64)
+            st.assume(z3.ULT(B, U64(1 << 32)))
+            N = Node(st, n, base=B)
+            wal = N.node.load(F('RaftNode', 'wal'), 'std::option::Option<std::sync::Arc<parking_lot::lock_api::Mutex<parking_lot::RawMutex, raft_wal::RaftWal>>>', st)
+            st.assume(wal.disc == 1)      # a WAL is configured
+            ae = st.fresh('AppendEntries', 'ae')
+            ae_term = ae.load(F('AppendEntries', 'term'), 'u64', st).v
+            prev = z3.simplify(B + U64(p_off))
+            ae.fields[F('AppendEntries', 'prev_log_index')] = Int(prev, False)
+            ae_prevt = ae.load(F('AppendEntries', 'prev_log_term'), 'u64', st).v
+            ae.fields[F('AppendEntries', 'block_embedding')] = none('std::option::Option<tensor_store::SparseVector>')
+            ents, eterms = [], []
+            for j in range(k):
+                e = st.fresh('LogEntry', f'ae.entries[{j}]')
+                t = e.load(F('LogEntry', 'term'), 'u64', st)
+                e.fields[F('LogEntry', 'index')] = Int(z3.simplify(prev + U64(j + 1)), False)
+                ents.append(e)
+                eterms.append(t.v)
+                st.assume(z3.ULE(t.v, ae_term))
+            ae.fields[F('AppendEntries', 'entries')] = Seq('LogEntry', ents)
+            frm = st.fresh('std::string::String', 'from')
+            res = run(st, 'RaftNode::handle_append_entries', [N.ptr, ref(frm), ref(ae)])
+            ck.note_path_problem(res, f'handle_append_entries (WAL mirror) log={n} entries={k} prev=base+{p_off}')
+            for r in res:
+                if r.status != 'return':
+                    continue
+                f = r.st
+                if any(x[0] == 'persist_failed' for x in f.notes):
+                    continue
+                wit = lambda m, r=r, N=N, eterms=eterms, p_off=p_off, n=n: {'mirror': True, 'base': mval(m, B), 'pre_terms': [mval(m, t) for t in N.log0], 'prev_offset': p_off,
+                                                                       'prev_term': mval(m, ae_prevt), 'ae_term': mval(m, ae_term), 'entry_terms': [mval(m, t) for t in eterms],
+                                                                       'node_term': mval(m, N.term0.v)}
+                # simulate the WAL on offsets relative to base
+                sim = {i + 1: N.log0[i] for i in range(n)}
+                ok_ = True
+                conds = []
+                for x in f.notes:
+                    if x[0] == 'persist_entry':
+                        e = x[1].load(f) if isinstance(x[1], Ptr) else x[1]
+                        idx = e.load(F('LogEntry', 'index'), 'u64', f).v
+                        trm = e.load(F('LogEntry', 'term'), 'u64', f).v
+                        off = [c for c in range(0, n + k + 2) if ex.solver.check(r.pc, idx != B + U64(c)) == z3.unsat]
+                        if not off:
+                            ok_ = False
+                            break
+                        sim[off[0]] = trm
+                    elif x[0] == 'wal_record' and isinstance(x[1], Enum) and x[1].variant == 'LogTruncate':
+                        fi = x[1].fields[('LogTruncate', 0)].v
+                        off = [c for c in range(0, n + k + 2) if ex.solver.check(r.pc, fi != B + U64(c)) == z3.unsat]
+                        if not off:
+                            # from_index is not base + constant on this path: the persisted cut point differs from the in-memory one for some base
+                            conds.append(('truncate', fi))
+                            ok_ = False
+                            break
+                        for key in [kk for kk in sim if kk >= off[0]]:
+                            del sim[key]
+                log1 = N.log(f)
+                if ok_:
+                    keys = sorted(sim)
+                    concl = z3.And([z3.BoolVal(len(log1) == len(keys) and keys == list(range(1, len(keys) + 1)))] +
+                                   [z3.And(log1[i][0] == sim[kk], log1[i][1] == B + U64(kk)) for i, kk in enumerate(keys) if i < len(log1)])
+                else:
+                    concl = z3.BoolVal(False)
+                ck.require(ex, 'P1_wal_mirrors_log', r.pc, None, concl, wit, lambda m, w: 'wal-mirror', prefer=z3.And(B >= 1, B <= 3))
+                mirrored += 1
+if mirrored == 0:
+    ck.inconclusive.append('vacuous: WAL mirror obligation never instantiated')
+
 # ------------------------------------------------------------------ native replay on real files
 for v in ck.violations:
     w = v['witness']
@@ -77,13 +161,17 @@ for v in ck.violations:
             v['replayed'] = rep.get('replay1_ok') is False or rep.get('replay1_matches') is False
         else:
             v['replayed'] = rep.get('replay2_ok') is False or rep.get('new_record_recovered') is False or rep.get('replay2_prefix_matches') is False
+    elif w.get('mirror'):
+        rep = Replay.call({'op': 'raft_wal_mirror', **w})
+        v['native'] = rep
+        v['replayed'] = rep.get('differs')
     elif 'records' in w:
         rep = Replay.call({'op': 'raft_from_entries', 'records': w['records']})
         v['native'] = rep
         last = w['records'][-1]
         v['replayed'] = rep.get('term') != last['term'] or rep.get('vote') != (None if last['vote'] is None else f"n{last['vote']}")
 
-ck.functions += ['RaftWal::open_with_config', 'RaftWal::count_entries', 'RaftWal::append', 'RaftWal::write_entry_bytes',
+ck.functions += ['RaftNode::handle_append_entries', 'RaftNode::append_leader_entries', 'RaftNode::persist_log_entry(stub: records its argument)', 'RaftWal::open_with_config', 'RaftWal::count_entries', 'RaftWal::append', 'RaftWal::write_entry_bytes',
                  'RaftWal::replay_with_validation', 'RaftRecoveryState::from_entries', '<FileWriter as WalWriter>::write_all']
 if __name__ == '__main__':
     ck.finish()
